@@ -8,6 +8,11 @@ step function that satisfies the *frame hypothesis* `hframe`: a step leaves the 
 (it may read the dictionary and read/write only the state of its own thread — the latter is built into
 the type of `step`).
 
+The second half of the file replaces the frame hypothesis by MONOTONE shared state and instantiates it with the
+shared state that really exists in the Rust code, initialise-once cells (`lazy_static!`): `interleaving_independent_mono`,
+`interleaving_independent_once`, `cells_schedule_independent`, and shows by kernel-checked witnesses that a
+genuinely shared-mutable cell breaks independence (`torn_memo_counterexample`, `two_lock_state_counterexample`).
+
 What the theorems cannot carry: whether the Rust code really satisfies the frame hypothesis — lazily
 initialised statics, `CowArray::set`, the lifetime-erased slices, the GIL release in the Python
 binding.  That part is exercised by the multi-threaded runs of the check (each thread's trace under
@@ -66,5 +71,248 @@ example :
     (run step sys [0, 1, 0]).2 = [(0, 101), (1, 115), (0, 103)] ∧
     outputsOf 0 (run step sys [0, 1, 0]).2 = alone step 100 0 [1, 2] := by
   refine ⟨fun _ _ _ => rfl, by decide, by decide⟩
+
+
+/-! ## Shared state that exists: initialise-once cells (monotone shared state instead of the frame hypothesis)
+
+`Sched.run` lets a step return a new shared component, so it also describes a program whose threads DO write
+shared state.  The first theorem replaces the frame hypothesis by: the shared component stays inside a set
+`I`, and inside `I` a step's new private state and output do not depend on it.  The once-cell theorems
+instantiate it with `I := Consistent (init d)` (every initialised cell holds what its initialiser gives) —
+a fact that is PROVED of `Prog.exec`, not assumed: a step reaches the cells only through `getOrInit`. -/
+
+variable {G V : Type}
+
+/-- **Monotone shared state.**  If the shared component stays inside `I` and, inside `I`, the private state
+and the output of a step do not depend on it, then under every schedule every thread gets what it gets alone
+(alone from ANY shared component `g0` in `I`), and the shared component is still in `I`. -/
+theorem interleaving_independent_mono (step : G → S → Op → G × S × Out) (I : G → Prop)
+    (hI : ∀ g s op, I g → I (step g s op).1)
+    (hins : ∀ g g' s op, I g → I g' → (step g s op).2 = (step g' s op).2)
+    (sys : Sys G S Op) (g0 : G) (hsys : I sys.dict) (hg0 : I g0)
+    (sched : List Nat) (i : Nat) (s : S) (ops : List Op)
+    (hs : sys.states[i]? = some s) (hp : sys.pending[i]? = some ops) :
+    ∃ s' ops', (run step sys sched).1.states[i]? = some s' ∧ (run step sys sched).1.pending[i]? = some ops' ∧
+      outputsOf i (run step sys sched).2 ++ aloneG step g0 s' ops' = aloneG step g0 s ops ∧
+      I (run step sys sched).1.dict :=
+  run_invariant_mono step I hI hins g0 hg0 sched sys i s ops hsys hs hp
+
+/-- the frame hypothesis is the special case `I := (· = d)`: `interleaving_independent` follows from the
+monotone theorem (same statement as above, derived a second way) -/
+theorem frame_is_special_case_of_mono (step : D → S → Op → D × S × Out) (hframe : ∀ d s op, (step d s op).1 = d)
+    (sys : Sys D S Op) (sched : List Nat) (i : Nat) (s : S) (ops : List Op)
+    (hs : sys.states[i]? = some s) (hp : sys.pending[i]? = some ops) :
+    ∃ s' ops', (run step sys sched).1.states[i]? = some s' ∧ (run step sys sched).1.pending[i]? = some ops' ∧
+      outputsOf i (run step sys sched).2 ++ alone step sys.dict s' ops' = alone step sys.dict s ops := by
+  obtain ⟨s', ops', h1, h2, h3, _⟩ := interleaving_independent_mono step (fun g => g = sys.dict)
+    (fun g s op hg => by rw [hframe]; exact hg)
+    (fun g g' s op hg hg' => by rw [hg, hg']) sys sys.dict rfl rfl sched i s ops hs hp
+  refine ⟨s', ops', h1, h2, ?_⟩
+  rw [aloneG_eq_alone step hframe, aloneG_eq_alone step hframe] at h3
+  exact h3
+
+/-- **Every interleaving gives each thread what it gets alone from the all-uninitialised state** — with
+once-cells shared.  `init` is the initialiser (a function of the dictionary and the cell number), `stepP` says
+which cells an operation asks for; the cells the system starts with may be empty or partly initialised
+(`Consistent`), the single-threaded reference run starts with NO cell initialised. -/
+theorem interleaving_independent_once (init : D → Nat → V) (stepP : D → S → Op → Prog V (S × Out)) (d : D)
+    (sys : Sys (Cells V) S Op) (hc : Consistent (init d) sys.dict)
+    (sched : List Nat) (i : Nat) (s : S) (ops : List Op)
+    (hs : sys.states[i]? = some s) (hp : sys.pending[i]? = some ops) :
+    ∃ s' ops', (run (onceStep init stepP d) sys sched).1.states[i]? = some s' ∧
+      (run (onceStep init stepP d) sys sched).1.pending[i]? = some ops' ∧
+      outputsOf i (run (onceStep init stepP d) sys sched).2 ++ aloneG (onceStep init stepP d) Cells.empty s' ops'
+        = aloneG (onceStep init stepP d) Cells.empty s ops := by
+  obtain ⟨s', ops', h1, h2, h3, _⟩ := interleaving_independent_mono (onceStep init stepP d) (Consistent (init d))
+    (fun g s op hg => onceStep_preserves init stepP d g s op hg)
+    (fun g g' s op hg hg' => onceStep_insensitive init stepP d g g' s op hg hg')
+    sys Cells.empty hc (consistent_empty _) sched i s ops hs hp
+  exact ⟨s', ops', h1, h2, h3⟩
+
+/-- a thread that has performed all its operations has output exactly what it outputs alone, no cell
+initialised at its start -/
+theorem complete_thread_eq_alone_once (init : D → Nat → V) (stepP : D → S → Op → Prog V (S × Out)) (d : D)
+    (sys : Sys (Cells V) S Op) (hc : Consistent (init d) sys.dict)
+    (sched : List Nat) (i : Nat) (s : S) (ops : List Op)
+    (hs : sys.states[i]? = some s) (hp : sys.pending[i]? = some ops)
+    (hdone : (run (onceStep init stepP d) sys sched).1.pending[i]? = some []) :
+    outputsOf i (run (onceStep init stepP d) sys sched).2 = aloneG (onceStep init stepP d) Cells.empty s ops := by
+  obtain ⟨s', ops', _, h2, h3⟩ := interleaving_independent_once init stepP d sys hc sched i s ops hs hp
+  rw [hdone] at h2
+  have : ops' = [] := (Option.some.inj h2).symm
+  subst this
+  simpa [aloneG] using h3
+
+/-- **What the cells hold when all threads are done**: cell `x` is initialised iff it was at the start or some
+thread's operations (performed alone) ask for it, and then it holds `init d x` — nothing in this description
+mentions the schedule. -/
+theorem final_cells_spec (init : D → Nat → V) (stepP : D → S → Op → Prog V (S × Out)) (d : D)
+    (sys : Sys (Cells V) S Op) (hc : Consistent (init d) sys.dict) (sched : List Nat)
+    (hdone : ∀ (i : Nat) (ops : List Op), (run (onceStep init stepP d) sys sched).1.pending[i]? = some ops → ops = [])
+    (x : Nat) (v : V) :
+    (run (onceStep init stepP d) sys sched).1.dict x = some v ↔
+      v = init d x ∧ ((sys.dict x).isSome ∨ ∃ (i : Nat) (s : S) (ops : List Op), sys.states[i]? = some s ∧
+        sys.pending[i]? = some ops ∧ x ∈ touchedAlone init stepP d s ops) := by
+  obtain ⟨hcons, hdue⟩ := run_due init stepP d sched sys hc x
+  have hfin : Due init stepP d (run (onceStep init stepP d) sys sched).1 x ↔
+      ((run (onceStep init stepP d) sys sched).1.dict x).isSome := by
+    unfold Due
+    constructor
+    · rintro (h | ⟨i, s, ops, _, hp, hx⟩)
+      · exact h
+      · have := hdone i ops hp
+        subst this
+        simp [touchedAlone] at hx
+    · intro h; exact Or.inl h
+  constructor
+  · intro hv
+    refine ⟨hcons x v hv, ?_⟩
+    have : Due init stepP d sys x := hdue.mp (hfin.mpr (by simp [hv]))
+    exact this
+  · rintro ⟨hv, hd⟩
+    have h1 : ((run (onceStep init stepP d) sys sched).1.dict x).isSome := hfin.mp (hdue.mpr hd)
+    cases hx : (run (onceStep init stepP d) sys sched).1.dict x with
+    | none => simp [hx] at h1
+    | some w => rw [hcons x w hx, hv]
+
+/-- **The final cell contents are schedule-independent**: two schedules that both let every thread finish
+leave the same cells. -/
+theorem cells_schedule_independent (init : D → Nat → V) (stepP : D → S → Op → Prog V (S × Out)) (d : D)
+    (sys : Sys (Cells V) S Op) (hc : Consistent (init d) sys.dict) (sched1 sched2 : List Nat)
+    (h1 : ∀ (i : Nat) (ops : List Op), (run (onceStep init stepP d) sys sched1).1.pending[i]? = some ops → ops = [])
+    (h2 : ∀ (i : Nat) (ops : List Op), (run (onceStep init stepP d) sys sched2).1.pending[i]? = some ops → ops = []) :
+    (run (onceStep init stepP d) sys sched1).1.dict = (run (onceStep init stepP d) sys sched2).1.dict := by
+  funext x
+  have a := final_cells_spec init stepP d sys hc sched1 h1 x
+  have b := final_cells_spec init stepP d sys hc sched2 h2 x
+  cases hx : (run (onceStep init stepP d) sys sched1).1.dict x with
+  | some v => exact ((b v).mpr ((a v).mp hx)).symm
+  | none =>
+    cases hy : (run (onceStep init stepP d) sys sched2).1.dict x with
+    | none => rfl
+    | some w => have := (a w).mpr ((b w).mp hy); rw [hx] at this; exact absurd this (by simp)
+
+/-- the shared state only grows: a cell that is initialised keeps its content under every schedule (and the
+dictionary cannot change at all: a once-cell step has no way to return one) -/
+theorem cells_monotone (init : D → Nat → V) (stepP : D → S → Op → Prog V (S × Out)) (d : D)
+    (sys : Sys (Cells V) S Op) (hc : Consistent (init d) sys.dict) (sched : List Nat) (x : Nat) (v : V)
+    (hx : sys.dict x = some v) : (run (onceStep init stepP d) sys sched).1.dict x = some v :=
+  run_cells_monotone init stepP d sched sys hc x v hx
+
+/-- the old theorems are the case without cells: a step that asks for no cell satisfies the frame hypothesis
+(for the cell map as the shared component), so `interleaving_independent`, `complete_thread_eq_alone` and
+`dictionary_unchanged` apply to it as they stand -/
+theorem no_cells_is_frame (init : D → Nat → V) (f : D → S → Op → S × Out) (d : D) (cs : Cells V) (s : S) (op : Op) :
+    (onceStep init (fun d s op => Prog.ret (f d s op)) d cs s op).1 = cs := rfl
+
+/-! ### the hypothesis is necessary: genuinely shared-mutable cells break independence -/
+
+/-- atomic accesses of a one-entry memo made of TWO shared words (key, info), as in `seeded/C18a`:
+`lookup c = [probe c, fillInfo c, fillKey c, result c]` -/
+inductive MemoOp where
+  | probe (c : Nat) | fillInfo (c : Nat) | fillKey (c : Nat) | result (c : Nat)
+  deriving DecidableEq
+
+/-- the definition of category `c` (what the hash map holds) -/
+def memoTable (c : Nat) : Nat := 10 * c
+
+/-- shared = (key, info); private = "the probe hit"; output 0 = none yet -/
+def memoStep (g : Nat × Nat) (hit : Bool) : MemoOp → (Nat × Nat) × Bool × Nat
+  | .probe c => (g, g.1 == c, 0)
+  | .fillInfo c => if hit then (g, hit, 0) else ((g.1, memoTable c), hit, 0)
+  | .fillKey c => if hit then (g, hit, 0) else ((c, g.2), hit, 0)
+  | .result c => (g, hit, if hit then g.2 else memoTable c)
+
+def memoLookup (c : Nat) : List MemoOp := [.probe c, .fillInfo c, .fillKey c, .result c]
+
+/-- empty memo; thread 0 looks category 1 up twice, thread 1 looks category 2 up once -/
+def memoSys : Sys (Nat × Nat) Bool MemoOp :=
+  { dict := (0, 0), states := [false, false], pending := [memoLookup 1 ++ memoLookup 1, memoLookup 2] }
+
+def memoSched : List Nat := [0, 0, 1, 1, 1, 0, 0, 0, 0, 0, 0, 1]
+
+/-- **Torn two-word memo (seeded change C18a).**  Thread 0 looks category 1 up twice, thread 1 looks category 2
+up once.  Alone, each lookup returns the category's own definition.  Under the schedule
+`0.probe 0.fillInfo 1.probe 1.fillInfo 1.fillKey 0.fillKey …` the memo holds key 1 with the definition of 2,
+and thread 0's second lookup returns 20 instead of 10: a step that writes shared state outside the once-cell
+discipline breaks `interleaving_independent`, so its hypothesis cannot be dropped. -/
+theorem torn_memo_counterexample :
+    aloneG memoStep (0, 0) false (memoLookup 1 ++ memoLookup 1) = [0, 0, 0, 10, 0, 0, 0, 10] ∧
+    aloneG memoStep (0, 0) false (memoLookup 2) = [0, 0, 0, 20] ∧
+    outputsOf 0 (run memoStep memoSys memoSched).2 = [0, 0, 0, 10, 0, 0, 0, 20] ∧
+    (run memoStep memoSys memoSched).1.pending = [[], []] ∧
+    outputsOf 0 (run memoStep memoSys memoSched).2 ≠ aloneG memoStep (0, 0) false (memoLookup 1 ++ memoLookup 1) := by
+  decide
+
+/-- consequently NO invariant of the shared memo makes it harmless: there is no set `I` containing the empty
+memo that the steps preserve and inside which private state and output do not depend on the memo -/
+theorem torn_memo_admits_no_invariant :
+    ¬ ∃ I : Nat × Nat → Prop, I (0, 0) ∧ (∀ g s op, I g → I (memoStep g s op).1) ∧
+      (∀ g g' s op, I g → I g' → (memoStep g s op).2 = (memoStep g' s op).2) := by
+  rintro ⟨I, h0, hI, hins⟩
+  obtain ⟨_, _, _, hdone, hne⟩ := torn_memo_counterexample
+  obtain ⟨s', ops', _, h2, h3, _⟩ := interleaving_independent_mono memoStep I hI hins
+    memoSys (0, 0) h0 h0 memoSched 0 false (memoLookup 1 ++ memoLookup 1) rfl rfl
+  rw [hdone] at h2
+  have : ops' = [] := by simpa using h2.symm
+  subst this
+  simp only [aloneG, List.append_nil] at h3
+  exact hne h3
+
+/-- operations on a match state kept in the shared plugin behind a lock that is taken twice per match, as in
+`seeded/C18b`: `find t` stores the offsets of the match in `t`, `reading` reads "the current match" -/
+inductive MatchOp where
+  | find (t : Nat) | reading
+
+def matchStep (g : Nat) (s : Unit) : MatchOp → Nat × Unit × Nat
+  | .find t => (t, s, 0)
+  | .reading => (g, s, g)
+
+/-- **Two critical sections, one shared match state (seeded change C18b).**  Thread 0 searches its text (match
+at 5) and then reads the match; thread 1 searches its own text (match at 7) in between: thread 0 deletes the
+range of thread 1's reading.  Each step is atomic (the lock is held), the interleaving of steps is what hurts. -/
+theorem two_lock_state_counterexample :
+    let sys : Sys Nat Unit MatchOp := { dict := 0, states := [(), ()], pending := [[.find 5, .reading], [.find 7]] }
+    aloneG matchStep 0 () [.find 5, .reading] = [0, 5] ∧
+    outputsOf 0 (run matchStep sys [0, 1, 0]).2 = [0, 7] ∧
+    outputsOf 0 (run matchStep sys [0, 1, 0]).2 ≠ aloneG matchStep 0 () [.find 5, .reading] := by
+  decide
+
+/-- non-vacuity of the once-cell hypotheses: two threads race on cell 3 (whoever comes first initialises it
+with `init d 3 = d + 3`), both read `103`; thread 1 also asks for cell 4.  `Consistent` holds of the empty
+cells and of partly initialised ones; both complete schedules leave cells 3 and 4 initialised, nothing else. -/
+example :
+    let init : Nat → Nat → Nat := fun d c => d + c
+    let stepP : Nat → Nat → Nat → Prog Nat (Nat × Nat) := fun _ s op =>
+      .getOrInit 3 (fun v => if op = 0 then .ret (s + 1, v + s) else .getOrInit 4 (fun w => .ret (s + 1, v + w)))
+    let sys : Sys (Cells Nat) Nat Nat := { dict := Cells.empty, states := [0, 0], pending := [[0, 0], [1]] }
+    Consistent (init 100) sys.dict ∧
+    Consistent (init 100) (Cells.empty.set 3 103) ∧
+    (run (onceStep init stepP 100) sys [0, 1, 0]).2 = [(0, 103), (1, 207), (0, 104)] ∧
+    (run (onceStep init stepP 100) sys [1, 0, 0]).2 = [(1, 207), (0, 103), (0, 104)] ∧
+    initLog 8 (onceStep init stepP 100) sys [0, 1, 0] = [(3, 0), (4, 1)] ∧
+    initLog 8 (onceStep init stepP 100) sys [1, 0, 0] = [(3, 1), (4, 1)] ∧
+    (∀ (i : Nat) (ops : List Nat), (run (onceStep init stepP 100) sys [0, 1, 0]).1.pending[i]? = some ops → ops = []) ∧
+    ((List.range 8).map (run (onceStep init stepP 100) sys [0, 1, 0]).1.dict
+      = [none, none, none, some 103, some 104, none, none, none]) ∧
+    outputsOf 0 (run (onceStep init stepP 100) sys [0, 1, 0]).2 = aloneG (onceStep init stepP 100) Cells.empty 0 [0, 0] := by
+  refine ⟨consistent_empty _, consistent_set _ _ 3 (consistent_empty _), by decide, by decide, by decide, by decide, ?_, by decide, by decide⟩
+  intro i ops h
+  have hp : (run (onceStep (fun d c => d + c) (fun _ s op =>
+      Prog.getOrInit 3 (fun v => if op = 0 then Prog.ret (s + 1, v + s) else Prog.getOrInit 4 (fun w => Prog.ret (s + 1, v + w))))
+      100) { dict := Cells.empty, states := [0, 0], pending := [[0, 0], [1]] } [0, 1, 0]).1.pending = [[], []] := by decide
+  rw [hp] at h
+  match i, h with
+  | 0, h => simpa using h.symm
+  | 1, h => simpa using h.symm
+  | (n + 2), h => simp at h
+
+/-- non-vacuity of the monotone hypotheses with a shared component that really changes: a shared counter of
+steps that no output looks at (`I := True`) -/
+example :
+    let step : Nat → Nat → Nat → Nat × Nat × Nat := fun g s op => (g + 1, s + op, s + op)
+    (∀ (_g _s _op : Nat), True → True) ∧ (∀ (g g' s op : Nat), True → True → (step g s op).2 = (step g' s op).2) ∧
+    (run step { dict := 0, states := [0, 0], pending := [[1, 2], [5]] } [0, 1, 0]).1.dict = 3 := by
+  refine ⟨fun _ _ _ h => h, fun _ _ _ _ _ _ => rfl, by decide⟩
 
 end C18
